@@ -4,7 +4,7 @@
    - the texts the device layer hands to the client callbacks contain no CR / LF. *)
 From Coq Require Import List NArith ZArith Bool Lia.
 From PM Require Import Base.Bytes Base.Outcome Base.Dec Gen.GenConsts Gen.GenClient Model.ScriptAst Model.Enqueue Model.Script Model.Client Model.CliWorld
-                       Spec.Proto Proofs.ClientProto Proofs.ClientProofs Proofs.ScriptProofs Proofs.ClientStream.
+                       Spec.Proto Proofs.ClientProto Proofs.ClientProofs Proofs.ClientStream.
 Import ListNotations.
 Local Open Scope Z_scope.
 
@@ -73,10 +73,21 @@ Section T.
 End T.
 
 (* ---------- what the device layer passes to the callbacks ---------- *)
+Lemma memstr_byte_ge b : Forall (fun c => (32 <= c)%N) (memstr_byte b).
+Proof.
+  unfold memstr_byte.
+  destruct (N.eqb b 13); [repeat constructor; discriminate|].
+  destruct (N.eqb b 10); [repeat constructor; discriminate|].
+  destruct (N.eqb b 9); [repeat constructor; discriminate|].
+  destruct (is_print b) eqn:E.
+  - unfold is_print in E. apply andb_true_iff in E as [E _]. apply N.leb_le in E. repeat constructor. exact E.
+  - unfold octal3. repeat constructor; try discriminate; lia.
+Qed.
+
 Lemma memstr_clean t : clean (memstr t).
 Proof.
-  unfold clean. apply eol_free_ge. pose proof (memstr_printable t) as H. eapply Forall_impl; [|exact H].
-  intros c Hc. unfold is_print in Hc. apply andb_true_iff in Hc as [Hc _]. apply N.leb_le in Hc. exact Hc.
+  unfold clean. apply eol_free_ge. unfold memstr. induction t as [|b r IH]; [constructor|].
+  cbn [flat_map]. apply Forall_app. split; [apply memstr_byte_ge|exact IH].
 Qed.
 
 (* 305: "recv(dev): '...'" / "send(dev): '...'" with the bytes passed through dbg_memstr *)
